@@ -118,10 +118,19 @@ def run_case(pair, preds):
                             g, _ = fs.run_autogen(conn, md, obj_pred, name_pred, via=via, env=script_env(), **kw)
                         except Exception as e:
                             g = "%s: %s" % (type(e).__name__, e)
-                        entry.append((via, g))
+                        entry.append((via, g, 0))
             except Exception as e:  # a crash with a filter is reported as a disagreement
                 f, err = None, "%s: %s" % (type(e).__name__, e)
             out.append((obj_pred, name_pred, f, calls, err))
+        if setup.get("entry") and all(r[4] is None for r in out):
+            # the multidb pattern: every predicate pair in ONE env.py run, one configure() each, then one without any hook
+            seq = [(o, n) for o, n in preds] + [(fs.ACCEPT_ALL, fs.ACCEPT_ALL)]
+            try:
+                gs, _ = fs.run_autogen(conn, md, [o for o, _ in seq], [n for _, n in seq], via="multi", env=script_env(), **kw)
+            except Exception as e:
+                gs = ["%s: %s" % (type(e).__name__, e)] * len(seq)
+            for i, g in enumerate(gs):
+                entry.append(("multi", g, i if i < len(preds) else -1))
         return {"schemas": schemas, "conn_desc": conn_desc, "unfiltered": unf, "runs": out, "n_diffs": nd, "entry": entry}
     finally:
         conn.close()
@@ -133,14 +142,19 @@ def check_cases(ctx, items):
     ops, index, entry_specs = [], [], []
     for pair, res in items:
         # the three public entry points must report the same changes for the same filters
-        for via, g in res.get("entry", []):
-            f0 = res["runs"][0][2]
+        for via, g, idx in res.get("entry", []):
+            op_, np_, f0 = (res["runs"][idx][0], res["runs"][idx][1], res["runs"][idx][2]) if idx >= 0 else (
+                fs.ACCEPT_ALL, fs.ACCEPT_ALL, res["unfiltered"])
             ctx.hist("entry_point_runs", via)
             if g != f0:
-                ctx.disagree("entry-points", {"pair": pair, "objPred": res["runs"][0][0], "namePred": res["runs"][0][1]},
-                             {via: g}, {"produce_migrations": f0}, note="same filters, different public entry point")
+                inp = {"pair": pair, "objPred": op_, "namePred": np_}
+                if via == "multi":
+                    inp["configureSequence"] = [[r[0], r[1]] for r in res["runs"]] + [[fs.ACCEPT_ALL, fs.ACCEPT_ALL]]
+                    inp["configureIndex"] = idx if idx >= 0 else len(res["runs"])
+                ctx.disagree("entry-points", inp, {via: g}, {"produce_migrations": f0},
+                             note="same filters, different public entry point")
                 if isinstance(g, list):
-                    entry_specs.append((pair, res, via, g))
+                    entry_specs.append((pair, res, via, g, op_, np_, inp))
         for obj_pred, name_pred, f, calls, err in res["runs"]:
             mi = model_input(pair, res["conn_desc"], res["schemas"], obj_pred, name_pred)
             ops.append({"op": "filter.diff", **mi})
@@ -196,16 +210,18 @@ def check_cases(ctx, items):
 
     # an entry point that reports other changes than produce_migrations is judged by the specification on its own
     if entry_specs:
-        q = [{"op": "filter.spec", **model_input(pair, res["conn_desc"], res["schemas"], res["runs"][0][0], res["runs"][0][1]),
+        q = [{"op": "filter.spec", **model_input(pair, res["conn_desc"], res["schemas"], op_, np_),
               "filtered": [o for o in g if not o["kind"].startswith("other:")], "unfilteredOps": res["unfiltered"]}
-             for pair, res, via, g in entry_specs]
-        for (pair, res, via, g), s in zip(entry_specs, ctx.drv.ask(q)):
-            inp = {"pair": pair, "objPred": res["runs"][0][0], "namePred": res["runs"][0][1], "entry": via}
+             for pair, res, via, g, op_, np_, _ in entry_specs]
+        for (pair, res, via, g, op_, np_, inp0), s in zip(entry_specs, ctx.drv.ask(q)):
+            inp = dict(inp0, entry=via)
             for key, kind in (("object", "object-leak"), ("name", "name-leak"), ("conservative", "not-conservative")):
                 if s.get(key) is False:
                     ctx.fail(inp, "%s: through %s (%s) the property fails: %s" % (
-                        kind, via, "alembic revision --autogenerate / env.py" if via == "command" else "compare_metadata()",
-                        json.dumps(s.get("badObject") or s.get("badName") or s.get("accFiltered"))[:400]),
+                        kind, via, {"command": "alembic revision --autogenerate / env.py", "compare": "compare_metadata()",
+                                    "multi": "one env.py run with several configure() calls, this one not the first"}[via],
+                        json.dumps(s.get("badObject") or s.get("badName") or
+                                   {"with": s.get("accFiltered"), "without": s.get("accUnfiltered")})[:600]),
                         impl={"ops": g}, tags=[key, "entry"])
 
 
@@ -264,9 +280,19 @@ def classify(failure):
 
 def replay(ctx, case):
     inp = case["input"]
-    res = run_case(inp["pair"], [(inp["objPred"], inp["namePred"])])
-    obj_pred, name_pred, f, calls, err = res["runs"][0]
-    entry = {via: g for via, g in res.get("entry", [])}
+    if inp.get("configureSequence"):
+        # the whole configure() sequence of the env.py run is the input; the judged call is configureIndex
+        pair = dict(inp["pair"], setup=dict(inp["pair"].get("setup", {}), entry=True))
+        seq = [tuple(x) for x in inp["configureSequence"][:-1]]
+        res = run_case(pair, seq)
+        k = inp["configureIndex"]
+        obj_pred, name_pred = (seq[k] if k < len(seq) else (fs.ACCEPT_ALL, fs.ACCEPT_ALL))
+        f = [g for via, g, idx in res["entry"] if via == "multi" and (idx == k or (idx == -1 and k == len(seq)))][0]
+        calls, err = [], None
+    else:
+        res = run_case(inp["pair"], [(inp["objPred"], inp["namePred"])])
+        obj_pred, name_pred, f, calls, err = res["runs"][0]
+    entry = {"%s[%d]" % (via, idx): g for via, g, idx in res.get("entry", [])}
     mi = model_input(inp["pair"], res["conn_desc"], res["schemas"], obj_pred, name_pred)
     m = ctx.drv.ask1({"op": "filter.diff", **mi})
     s = ctx.drv.ask1({"op": "filter.spec", **mi, "filtered": f or [], "unfilteredOps": res["unfiltered"]})
